@@ -59,7 +59,7 @@ fn exec_rt(name: &str, bytes: Vec<u8>) -> String {
         "Vkeywitness" => Vkeywitness, "Vkeywitnesses" => Vkeywitnesses, "BootstrapWitness" => BootstrapWitness,
         "BootstrapWitnesses" => BootstrapWitnesses, "TransactionWitnessSet" => TransactionWitnessSet,
         "Transaction" => Transaction, "VRFCert" => VRFCert, "OperationalCert" => OperationalCert,
-        "HeaderBody" => HeaderBody, "Header" => Header, "HeaderBodyPraos" => HeaderBody, "HeaderPraos" => Header, "Block" => Block, "Int" => Int,
+        "HeaderBody" => HeaderBody, "Header" => Header, "HeaderBodyPraos" => HeaderBody, "HeaderPraos" => Header, "Block" => Block, "BlockPraos" => Block, "Int" => Int,
     )
 }
 
@@ -1267,6 +1267,7 @@ fn prov_labels() -> Vec<(&'static str, &'static str)> {
         ("PlutusData", "prov_list_into_data"), ("PlutusData", "prov_list_into_constr"), ("PlutusData", "prov_list_ws_into_constr"),
         ("Redeemers", "prov_data_into_redeemer"), ("Redeemers", "prov_redeemers_forms"),
         ("Transaction", "prov_parts_into_transaction"),
+        ("TransactionWitnessSet", "prov_datum_pair_into_ws"), ("Transaction", "prov_datum_pair_into_transaction"),
     ]
 }
 fn dec<T, E>(r: Result<T, E>) -> Result<T, ()> { r.map_err(|_| ()) }
@@ -1413,6 +1414,30 @@ fn prov(ty: &str, label: &str, k: u64) -> Option<Result<Vec<u8>, ()>> {
         }
         "prov_data_into_redeemer" => plutus_list(g, v).map(|l| { let d = PlutusData::new_list(&l); let mut r = Redeemers::new();
             r.add(&Redeemer::new(&g.redeemer_tag(k), &bn(g.u32e() as u64), &d, &g.ex_units())); r.to_bytes() }),
+        // the SAME datum twice with different provenance: built through the typed API, and decoded from its own bytes (the
+        // decoded one remembers its original bytes).  Both are written as the same bytes, so the datum set must hold it once.
+        "prov_datum_pair_into_ws" | "prov_datum_pair_into_transaction" => {
+            let typed = match (k / 8) % 4 { 0 => g.plutus_data(2), 1 => g.constr(k, 1), 2 => PlutusData::new_integer(&g.bigint_small()), _ => PlutusData::new_bytes(g.bytes(8)) };
+            dec(PlutusData::from_bytes(typed.to_bytes())).and_then(|decoded| {
+                let decoded2 = dec(PlutusData::from_bytes(typed.to_bytes()))?;
+                let other = PlutusData::new_bytes(g.bytes(5));
+                let mut l = PlutusList::new();
+                match v {
+                    0 => { l.add(&typed); l.add(&decoded); }
+                    1 => { l.add(&decoded); l.add(&typed); }
+                    2 => { l.add(&typed); l.add(&other); l.add(&decoded); }
+                    3 => { l.add(&decoded); l.add(&decoded2); }
+                    4 => { l.add(&typed); l.add(&typed); }
+                    5 => { l.add(&other); l.add(&decoded); l.add(&typed); l.add(&decoded2); }
+                    6 => { // the list itself decoded from bytes holding the pair's first half, then the typed twin added
+                           let mut one = PlutusList::new(); one.add(&typed); let mut dl = dec(PlutusList::from_bytes(one.to_bytes()))?; dl.add(&typed); l = dl; }
+                    _ => { l.add(&decoded); l.add(&other); l.add(&typed); }
+                }
+                let mut ws = TransactionWitnessSet::new(); ws.set_plutus_data(&l);
+                if label == "prov_datum_pair_into_ws" { Ok(ws.to_bytes()) }
+                else { ws.set_vkeys(&g.vkeywitnesses(1, 2)); Ok(Transaction::new(&g.body(0), &ws, None).to_bytes()) }
+            })
+        }
         "prov_parts_into_transaction" => {
             // body, witness set and auxiliary data each decoded from their own bytes, then assembled
             let (bm, wm, ak) = (g.r.next() & ALL_BODY, g.r.next() & ALL_WITS, g.below(7));
@@ -1557,7 +1582,7 @@ fn tx_scenario(k: u64, f: &mut Feat) -> Result<Transaction, JsError> {
     // ---- degenerate histories (a third of the scenarios): bit 0 mint history with a net-zero / partly cancelled line,
     // 1 inputs carrying zero-quantity assets / empty bundles, 2 an output requested with such a value, 3 sub-builders set but
     // empty, 4 collateral inputs with degenerate values, 5 the whole surplus taken as fee (change exactly zero)
-    let degen: u64 = if g.chance(1, 3) { let m = g.r.next() & 63; if m == 0 { 1 } else { m } } else { 0 };
+    let degen: u64 = if g.chance(1, 3) { let m = g.r.next() & 127; if m == 0 { 1 } else { m } } else { 0 };
     if degen != 0 { f.set("degenerate"); }
 
     // ---- configuration ----
@@ -1869,6 +1894,17 @@ fn tx_scenario(k: u64, f: &mut Feat) -> Result<Transaction, JsError> {
         if !f.v.contains(&"collateral") { tb.set_collateral(&TxInputsBuilder::new()); }
         if !f.v.contains(&"metadata") && g.chance(1, 2) { tb.set_metadata(&GeneralTransactionMetadata::new()); }
         f.set("empty_sub_builders");
+    }
+    if degen & 64 != 0 {
+        // the same extra witness datum handed over twice: typed, and decoded from its own bytes
+        let typed = g.plutus_data(1);
+        if let Ok(decoded) = PlutusData::from_bytes(typed.to_bytes()) {
+            if g.chance(1, 2) { tb.add_extra_witness_datum(&typed); tb.add_extra_witness_datum(&decoded); }
+            else { tb.add_extra_witness_datum(&decoded); tb.add_extra_witness_datum(&typed); }
+            if g.chance(1, 2) { tb.add_extra_witness_datum(&g.plutus_data(1)); }
+            let cm = g.costmdls(); tb.calc_script_data_hash(&cm)?;
+            f.set("datum_pair_both_provenances");
+        }
     }
     if g.chance(1, 8) { let d = g.range(1, 5 * ADA); tb.set_donation(&bn(d)); need += d; f.set("donation"); }
     if g.chance(1, 8) { tb.set_current_treasury_value(&bn(g.pos()))?; f.set("current_treasury_value"); }
